@@ -212,11 +212,11 @@ def coq_bytes(c):
                 k = m
             parts.append("[" + "; ".join(str(b) for b in c[i:k]) + "]")
             i = k
-    return "(" + " ++ ".join(parts) + ")" if parts else "[]"
+    return "(" + " ++ ".join(parts) + ")" if parts else "(@nil Z)"
 
 
 def coq_case(H, A, W, c, offs, toks, window):
-    return (f"(({H}, {A}, {W}), {coq_bytes(c)}, {vlib.zl(offs)}, "
+    return (f"(({H}, {A}, {W}), {coq_bytes(c)}, ({vlib.zl(offs)} : list Z), "
             f"({'true' if toks else 'false'}, {'true' if window else 'false'}))")
 
 
